@@ -48,6 +48,10 @@ fn later_use(mode: u8, data: &[u8], ctx: Ctx, j: usize, k: usize) -> Option<Stri
     for _ in 0..k {
         let before = c2.as_slice().to_vec();
         let mut l = Vec::new();
+        // a probe for a value that is not there fails without consuming: nothing of the data may be lost
+        { let probe = c2.decode_partial(|c| c.take_value_if(bcder::Tag::private(0x1f_fffe), |_| Ok(())));
+          if probe.is_ok() { return Some("probe-for-a-foreign-tag-succeeds".into()) }
+          if c2.as_slice() != before.as_slice() { return Some("failed-partial-decode-loses-data".into()) } }
         if c2.decode_partial(|c| exec(&[Prog::Take { opt: false, kind: 0, exp: None, body: Body::Generic }], c, &mut l)).is_err() { return Some("partial-decode-fails".into()) }
         let after = c2.as_slice().to_vec();
         if !before.ends_with(&after) { return Some("partial-decode-overlap".into()) }
